@@ -125,4 +125,20 @@ def recRow (rs : List Rec) (n : Nat) : Row :=
 /-- the records of a world after `N` days -/
 def records (w : List Em) (N : Nat) : List Rec := w.map (fun e => recOf e N)
 
+/-! ### "active and emitting": the two readings (see Props/C11 `emitting_conventions`) -/
+
+/-- state of `e` in the middle of day `n`: after activation and the day's events, before the update -/
+def mid (e : Em) (n : Nat) : State :=
+  (e.ev n).foldl (fun s ev => applyEv e.p n ev s) (activate e.p n (st e n))
+
+/-- `e` was emitting *during* day `n`: the flag the daily update of day `n` finds — the one
+`days_emitting` counts -/
+def emittingDuring (e : Em) (n : Nat) : Bool := isEmitting e.p (mid e n)
+
+/-- summed rates of the emissions active after the update of day `n` and (`after = true`) emitting
+after that update (`is_emitting()` when the row is written) / (`after = false`) emitting during day `n` -/
+def emittingSum (w : List Em) (n : Nat) (after : Bool) : Int :=
+  sumOver w (fun e => ind (activeAt e (n + 1) &&
+    (if after then isEmitting e.p (st e (n + 1)) else emittingDuring e n)) * e.rate)
+
 end LdarModel.World
